@@ -10,6 +10,7 @@ mod ops;
 mod ops2;
 mod props;
 mod props2;
+mod props3;
 mod refeng;
 
 use std::io::{BufRead, Write};
@@ -82,6 +83,11 @@ fn real_main(args: Vec<String>) -> i32 {
                 "C10" => props2::c10(&mut c),
                 "C11" => props2::c11(&mut c),
                 "C12" => props2::c12(&mut c),
+                "C13" => props3::c13(&mut c),
+                "C14" => props3::c14(&mut c),
+                "C15" => props3::c15(&mut c),
+                "C16" => props3::c16(&mut c),
+                "C17" => props3::c17(&mut c),
                 "C18" => props::c18(&mut c),
                 "C19" => props::c19(&mut c),
                 _ => {
